@@ -63,7 +63,7 @@ theorem planUpd_effs (ts : TableSchema) (ci : Nat) (col : Col) (add : Bool) (x :
               · rfl
               · exact h1 e he
             · simp only [Plan.cons, updRids, List.map_cons]
-              exact List.Sublist.cons₂ _ h2
+              exact List.Sublist.cons_cons _ h2
     · obtain ⟨h1, h2⟩ := planUpd_effs ts ci col add x p rs v
       exact ⟨h1, by simp only [List.map_cons]; exact List.Sublist.cons _ h2⟩
 
@@ -219,12 +219,8 @@ theorem auto_tail (σ : State) (α : Spec.State) (h : Rel σ α) (st : Stmt) (P 
     have hb : (σ.beginTxn D0).1.rows = σ.rows := rfl
     split
     · left
-      rename_i herr
-      simp only [herr, if_true]
       rfl
     · right
-      rename_i herr
-      simp only [herr, if_false]
       refine ⟨(σ.beginTxn D0).1.snapOf (σ.beginTxn D0).2, ?_⟩
       rw [commitTxn_rows, write_none]; rfl
   rcases hrows with e | ⟨s, e⟩
